@@ -160,7 +160,7 @@ def run_shard(ctx):
     if ctx.shard == 0:
         for name in mpt.KATS:
             run_case_guarded(mod, {"engine": "kat", "name": name}, ctx)
-    n = 220 if ctx.tier == "quick" else 2500
+    n = 900 if ctx.tier == "quick" else 6000
     maxops = 25 if ctx.tier == "quick" else 80
     for i in range(n):
         case = hh.gen_history(rnd, rnd.randint(1, maxops))
